@@ -869,6 +869,45 @@ example : (serve .dcTcp 0 0 none dcBigResp 0 0).cut = { ka := 3, kn := 0, ke := 
 branches of `acceptMsg` for such messages are unreachable over DNSCrypt. -/
 example : dcAccepts twoQuestions = false ∧ dcAccepts goodQuery = true := by decide
 
+/-- **dc_shared_opt_echo** (round 6).  DNSCrypt/UDP, whichever object the response's OPT record is —
+one of the handler's own or the request's record itself: the library reads
+min(advertised, configured) from the request (`dcAdvSeen`), and the response still carries the size
+the client sent. -/
+theorem dc_shared_opt_echo (respCell : OptCell) (hc : respCell ≠ .copyRec) (adv ownSize cfgMax : Nat) :
+    dcLowerRun false respCell adv ownSize cfgMax = (dcAdvSeen false adv cfgMax, adv) := by
+  cases respCell <;> simp [dcLowerRun, OptStore.set, OptStore.get, dcAdvSeen] at hc ⊢
+
+/-- **dc_shared_opt_echo_legacy_counterexample.**  The round-5 code lowered the request's record in
+place: a handler that reflects the request's OPT record answered a client advertising 4096 bytes
+with an OPT record that says 1232 (the configured maximum) — fixed entry
+`dnscrypt-udp-opt-echo-lowered`.  A response with a record of its own was never affected, which is
+why every earlier campaign passed. -/
+theorem dc_shared_opt_echo_legacy_counterexample :
+    ¬ ∀ (respCell : OptCell), respCell ≠ .copyRec → ∀ (adv ownSize cfgMax : Nat),
+      (dcLowerRun true respCell adv ownSize cfgMax).2 = adv := by
+  intro h
+  have := h .reqRec (by decide) 4096 0 1232
+  revert this
+  decide
+
+example : dcLowerRun true .reqRec 4096 0 1232 = (1232, 1232) ∧
+    dcLowerRun true .ownRec 4096 512 1232 = (1232, 4096) ∧
+    dcLowerRun false .reqRec 4096 0 1232 = (1232, 4096) ∧
+    dcLowerRun false .ownRec 4096 512 1232 = (1232, 4096) := by decide
+
+/-- **dc_cert_response_fits_iff** (round 6).  The library's own plain-text certificate answer
+(no `normalize`, no OPT record, uncompressed) stays within the 512 bytes a query without OPT allows
+exactly for provider names of at most 180 wire bytes; the names in use (`2.dnscrypt-cert.…`) are a
+fraction of that. -/
+theorem dc_cert_response_fits_iff (nameLen : Nat) : dcCertRespLen nameLen ≤ 512 ↔ nameLen ≤ 180 := by
+  unfold dcCertRespLen; omega
+
+example : dcCertRespLen 29 = 209 ∧ dcCertRespLen 180 = 511 ∧ dcCertRespLen 181 = 513 := by decide
+
+
+#print axioms dc_shared_opt_echo
+#print axioms dc_shared_opt_echo_legacy_counterexample
+#print axioms dc_cert_response_fits_iff
 #print axioms dc_udp_visible_le
 #print axioms dc_udp_end_to_end
 #print axioms dc_udp_uncompressed_counterexample
